@@ -4,22 +4,27 @@ P = dict(
     level='fault_enumeration',
     technique='runtime monitoring with fault enumeration: set-membership reference model (global index / location x local index / countdown) against FailableMemoryAllocator used directly and installed behind new, new[], malloc/calloc/strdup/strndup, and against the C-level countdown; every allocation point of fixed workloads designated in turn; ASan/UBSan build',
     rule='cases: (a) fault enumeration - 4 fixed workloads x {direct, installed behind all three families} x every single designation (each global index 1..N+2, each (location, local index) incl. one beyond the last) and, for the two 12-allocation workloads, every ordered pair of designations; '
-         '(b) C level - 6 fixed workloads x every countdown 0..N+2 and the direct out-of-memory switch, then set_not_out_of_memory; (c) realloc(NULL) while out-of-memory is simulated (child process); '
-         '(d) random histories: 0..4 global and 0..4 location designations per allocator in every registration order (duplicates, coincidences, deferred registration), 5..40 allocations over 1..4 of 5 locations (one reachable through two different file pointers), '
-         '1..2 allocator instances routed to the three families or used directly, 1..3 phases with checkAllFailedAllocsWereDone / clearFailedAllocs and re-designation after clear; (e) random C-level rounds of countdown / out-of-memory / restore mixed with realloc and free. '
+         '(a2) confusable location names - for every position p in 0..272 a pair of file names (designated X / other Y, same line) whose first difference is at p (other character, case of one letter, Y proper prefix of X, X proper prefix of Y; names of 1..282 characters), n in {1,2}, Y designated too or not, direct and installed, fixed interleaving of 4+4 allocations, check, clear, 2 more; '
+         '(b) C level - 6 fixed workloads x every countdown 0..N+2 and the direct out-of-memory switch, then set_not_out_of_memory; (b2) three out-of-memory episodes (expiring countdown / direct switch) x each under the standard malloc allocator or one of two failable malloc allocators installed by the test, all 216 combinations; (c) realloc(NULL) while out-of-memory is simulated (child process); '
+         '(d) random histories: 0..4 global and 0..4 location designations per allocator in every registration order (duplicates, coincidences, deferred registration), 5..40 allocations over 1..4 of 7 locations (one reachable through two different file pointers, two of them 96/97-character build-tree paths that agree in their first 90 characters), '
+         '1..2 allocator instances routed to the three families or used directly, 1..3 phases with checkAllFailedAllocsWereDone / clearFailedAllocs and re-designation after clear; (e) random C-level rounds of countdown / out-of-memory / restore mixed with realloc and free; (f) the same with 2..4 rounds between/before which the test installs another malloc allocator (standard / failable-1 / failable-2 with 0..2 global and 0..1 location designations): every request not answered by the simulated out-of-memory must be answered by the allocator the test put in effect, and by that allocator\'s own designations. '
          'Non-trivial = a history in which one allocator sees >= 2 locations and carries a location designation, or carries >= 2 designations on one location; a C-level history in which a request failed as designated after earlier requests succeeded under the countdown or with realloc mixed in; '
          'distinct by the complete step list',
     floor=dict(quick=4000, thorough=100000),
     counter_floor=dict(
-        quick=dict(fault_points_single=150, fault_points_pairs=3000, c_fault_points=80, designated_hit_global=2000, designated_hit_location=2000, designated_hit_both=50,
+        quick=dict(fault_points_single=150, fault_points_pairs=3000, c_fault_points=80, name_pair_cases=17000, name_pair_common_prefix_64_127=4000, name_pair_common_prefix_128_255=8000, c_allocator_switch_points=216,
+                   c_restore_of_episode_under_other_allocator_than_an_earlier_episode=3000, c_request_served_by_failable_in_effect_after_restore=8000, c_failable_in_effect_designation_fired=2000, designated_hit_global=2000, designated_hit_location=2000, designated_hit_both=50,
                    check_reported_unfired=2000, check_report_names_a_pending_designation=2000, check_silent=3000, clears=5000, failed_by_bad_alloc=500, failed_by_null=2000, c_requests_failed_as_designated=2000),
-        thorough=dict(fault_points_single=150, fault_points_pairs=3000, c_fault_points=80, designated_hit_both=1000, check_reported_unfired=50000, c_requests_failed_as_designated=50000),
+        thorough=dict(fault_points_single=150, fault_points_pairs=3000, c_fault_points=80, name_pair_cases=17000, c_allocator_switch_points=216, c_restore_of_episode_under_other_allocator_than_an_earlier_episode=50000, designated_hit_both=1000, check_reported_unfired=50000, c_requests_failed_as_designated=50000),
     ),
     assumptions=[
         'global designations are registered only while the allocator has seen no request since construction / clearFailedAllocs, location designations only for locations without a request so far (n-th since registration and n-th since clear coincide)',
         'a source location is (file text, line); failed requests count towards the indices',
         'realloc is not part of the FailableMemoryAllocator histories (it never reaches a TestMemoryAllocator); at C level both readings of whether realloc counts towards the countdown are accepted',
         'no free / realloc of a live block while out-of-memory is simulated (cpputest reports an allocator type mismatch there; releases are outside the statement)',
+        'the test changes the malloc allocator only while no out-of-memory injection is armed; a failable malloc allocator\'s index is accepted under both readings (requests that reach it / requests made while it is in effect) where they differ',
+        'clearing an injection that never reached the out-of-memory state (unexpired countdown, nothing set) while a non-standard malloc allocator is in effect is observed and counted, not judged (unchanged cpputest installs the standard allocator there)',
+        'an empty file name is not a source location',
         'throwing forms of new may throw bad_alloc or return NULL',
         'quick tier: exceptions enabled build; thorough tier adds the -fno-exceptions build (throwing forms of new return NULL there)',
     ],
